@@ -992,6 +992,12 @@ def m_it_collect(c, call, it):
             if x.variant == 'Err': return x
             out.append(x.fields[0])
         return Ok(VecV(out))
+    if tgt == 'Option':
+        out = []
+        for x in items:
+            if x.variant == 'None': return x
+            out.append(x.fields[0])
+        return Some(VecV(out))
     raise Unsupported('collect into ' + tgt)
 
 
